@@ -411,21 +411,32 @@ def main(argv=None):
         return key, cand, path, out
 
     items = sorted(groups.items())
-    if len(items) > 2 and a.jobs > 1:  # replays are independent subprocesses writing distinct files: run them concurrently
-        from multiprocessing.pool import ThreadPool
-        with ThreadPool(min(a.jobs, len(items))) as tp:
-            replayed = tp.map(_replay_group, items)
-    else:
-        replayed = [_replay_group(it) for it in items]
-    for key, cand, path, out in replayed:
-        if path is None:
-            nonrepro.append(f"{key[0]}::{key[1]} -> {str(out)[:300]}")
+    # counterexamples matching a known finding first, then the rest; once REPLAY_CAP unlisted violations have been reproduced the
+    # run has failed anyway and the remaining candidates are not replayed (reported as a count)
+    REPLAY_CAP = int(os.environ.get("VERIF_REPLAY_CAP", "60"))
+    items.sort(key=lambda it: 0 if match_known(known, prop, it[0][0], it[0][1]) else 1)
+    not_replayed = 0
+    from multiprocessing.pool import ThreadPool
+    chunk = max(1, 4 * a.jobs)
+    for c0 in range(0, len(items), chunk):
+        part = items[c0:c0 + chunk]
+        if len(violations) >= REPLAY_CAP:
+            not_replayed += len(part)
             continue
-        k = match_known(known, prop, cand["case"], cand["label"])
-        if k:
-            known_hits.setdefault(k["pattern"], (k, []))[1].append(f"{cand['case']}::{cand['label']}")
+        if len(part) > 2 and a.jobs > 1:  # replays are independent subprocesses writing distinct files: run them concurrently
+            with ThreadPool(min(a.jobs, len(part))) as tp:
+                replayed = tp.map(_replay_group, part)
         else:
-            violations.append((cand, path))
+            replayed = [_replay_group(it) for it in part]
+        for key, cand, path, out in replayed:
+            if path is None:
+                nonrepro.append(f"{key[0]}::{key[1]} -> {str(out)[:300]}")
+                continue
+            k = match_known(known, prop, cand["case"], cand["label"])
+            if k:
+                known_hits.setdefault(k["pattern"], (k, []))[1].append(f"{cand['case']}::{cand['label']}")
+            else:
+                violations.append((cand, path))
     for n in nonrepro[:10]:
         problems.append("counterexample did not reproduce on the unshimmed library (encoding or shim at fault): " + n)
     wall = time.time() - t0
@@ -470,6 +481,8 @@ def main(argv=None):
         if what.startswith(f"known: property={prop} "):
             what = what[len(f"known: property={prop} "):]
         print(f"KNOWN-FINDING: property={prop} {what} [{len(hits)} counterexample(s), e.g. {hits[0]}]")
+    if not_replayed:
+        print(f"  {not_replayed} further counterexample(s) not replayed: {len(violations)} unlisted violations were already reproduced")
     for cand, path in violations:
         print(f"VIOLATION property={prop} replay={path} case={cand['case']} obligation={cand['label']} info={cand.get('info')}")
     for p in problems[:30]:
